@@ -27,6 +27,18 @@ class C16Gen:
             ev = b.build()
             self.net = b.netlist
             k = len(ev)
+        elif cfg["source"] == "textgen":
+            from simkit import design_shrink, textgen_edif, textgen_verilog, textgen_eblif
+            mod = {"edf": textgen_edif, "v": textgen_verilog, "eblif": textgen_eblif}[cfg["fmt"]]
+            d = mod.gen_design(rng, cfg["gen"])
+            rs = rng.getrandbits(32)
+            rcfg = {"ws": "plain", "comment_rate": 0.0}
+            ev.append({"op": "fs_put", "path": "sim://in." + cfg["fmt"], "text": design_shrink.render(cfg["fmt"], d, rs, rcfg),
+                       "design": d, "fmt": cfg["fmt"], "render": rcfg, "render_seed": rs})
+            ev.append({"op": "fs_config", "chunk_law": cfg["chunk_law"], "seed": cfg["hash_seed_copy"]})
+            ev.append({"op": "parse", "path": "sim://in." + cfg["fmt"]})
+            self.net = "e2.0"
+            k = 3
         else:
             ev.append({"op": "fs_put_example", "name": cfg["example"], "path": "sim://in." + cfg["fmt"]})
             ev.append({"op": "fs_config", "chunk_law": cfg["chunk_law"], "seed": cfg["hash_seed_copy"]})
@@ -92,6 +104,14 @@ class C16(Prop):
             cfg["name_pool"] = ["a", "A", "ab", "a_b", "n1", "x y", "a[0]", "1a", "a-b"]
             cfg["edif_props"] = r.random() < 0.5
             cfg["mixed_meta"] = r.random() < 0.4
+        elif r.random() < 0.3:
+            # a text from the independent writers, read by the library's own reader: netlists with the rarer things a
+            # reader builds (primitives that are only instantiated and have no declared directions, aliased ports ...)
+            cfg["source"] = "textgen"
+            cfg["gen"] = {"depth": r.choice([1, 2, 3]), "max_mods": r.choice([1, 2]), "max_ports": r.choice([2, 4]),
+                          "max_wires": r.choice([1, 3]), "max_insts": r.choice([1, 3]), "max_prims": r.choice([1, 3]),
+                          "order": "bottom_up", "positional_rate": 0.0, "max_blackboxes": 3, "max_stmts": 6,
+                          "n_libs": 2, "max_cells": 3, "max_nets": 4, "hier_rate": 0.7}
         else:
             cfg["source"] = "example"
             names = corpus.names(fmt, big)
